@@ -21,6 +21,7 @@ func init() {
 			{"C13-R1", "endpoint index lock discipline", c13r1},
 			{"C13-R2", "no write to an unlinked shard set", c13r2},
 			{"C13-R3", "cache cleared with every mutation", c13r3},
+			{"C13-R4", "a delete that may leave a shard set empty reaches the unlink decision", c13r4},
 		},
 	})
 }
@@ -288,4 +289,74 @@ func phiContains(v, x ssa.Value) bool {
 		}
 	}
 	return false
+}
+
+
+// C13-R4: deleteServiceInner is the only path that removes a service's entry from the index (DeleteServiceShard,
+// DeleteShard, PruneShard). Once it holds the shard-set lock, every path on which keys are not to be preserved reaches
+// the "is the set empty now?" decision before it returns: an early return (e.g. "this registry had nothing here") would
+// leave an empty entry - and its ServiceAccounts - in the index after the service or registry is gone.
+func c13r4(c *Ctx) {
+	p := c.P
+	fn := p.Func(pkgModel, "EndpointIndex", "deleteServiceInner")
+	shardsF := p.Field(pkgModel, "EndpointShards", "Shards")
+	pk := paramNamed(fn, "preserveKeys")
+	var lock ssa.Instruction
+	eachInstr(fn, func(ins ssa.Instruction) {
+		if o := calleeObj(ins); o != nil && o.Name() == "Lock" && lock == nil {
+			lock = ins
+		}
+	})
+	if lock == nil {
+		c.Check("deleteServiceInner takes the shard-set lock", fn.Pos(), false, "no Lock call found")
+		return
+	}
+	// the emptiness decision: an If on len(<x>.Shards) == 0
+	isEmptyTest := func(ins ssa.Instruction) bool {
+		i, ok := ins.(*ssa.If)
+		if !ok {
+			return false
+		}
+		v, _ := stripNot(i.Cond)
+		b, ok := v.(*ssa.BinOp)
+		if !ok {
+			return false
+		}
+		for _, side := range []ssa.Value{b.X, b.Y} {
+			if call, ok := side.(*ssa.Call); ok {
+				if bi, ok := call.Call.Value.(*ssa.Builtin); ok && bi.Name() == "len" && fieldOfLoad(call.Call.Args[0]) == shardsF {
+					return true
+				}
+			}
+		}
+		return false
+	}
+	// edges on which keys are preserved
+	var keep []Edge
+	for _, i := range allIfs(fn) {
+		v, neg := stripNot(i.Cond)
+		if v == ssa.Value(pk) {
+			idx := 0
+			if neg {
+				idx = 1
+			}
+			keep = append(keep, Edge{i.Block(), idx})
+		}
+	}
+	c.Check("deleteServiceInner tests preserveKeys", fn.Pos(), len(keep) >= 1, "no test of preserveKeys found")
+	n := 0
+	eachInstr(fn, func(ins ssa.Instruction) {
+		if isEmptyTest(ins) {
+			n++
+		}
+	})
+	c.Check("deleteServiceInner has the emptiness decision", fn.Pos(), n >= 1, "no `len(Shards) == 0` decision found")
+	bad, found := pathAvoidingE(nil, lock, isEmptyTest, isReturn, keep, nil)
+	pos := fn.Pos()
+	if found && bad != nil {
+		pos = bad.Pos()
+	}
+	c.Check("after locking, a non-preserving delete always reaches the emptiness decision", pos, !found,
+		"deleteServiceInner can return, with preserveKeys false, without deciding whether the shard set became empty: after `endpoints -> none (keys preserved) -> service deleted / registry removed`, the empty entry and its ServiceAccounts stay in the EndpointIndex, keep feeding secure-naming SANs, and a re-created service is treated as known (incremental instead of full push)")
+	c.Floor(3)
 }
